@@ -3,6 +3,7 @@ package main
 import (
 	"fmt"
 	"go/types"
+	"math/big"
 	"sort"
 	"strings"
 
@@ -23,6 +24,31 @@ type UnitResult struct {
 }
 
 func (p *Program) verifyUnit(u *Unit) *UnitResult {
+	c := u.Contract
+	if c.Split == nil {
+		return p.verifyUnitOnce(u, nil, "")
+	}
+	var total *UnitResult
+	for v := c.SplitLo; v <= c.SplitHi; v++ {
+		r := p.verifyUnitOnce(u, big.NewInt(v), fmt.Sprintf("split%d_", v))
+		if total == nil {
+			total = r
+			continue
+		}
+		total.Obls = append(total.Obls, r.Obls...)
+		total.Errs = append(total.Errs, r.Errs...)
+		total.Paths += r.Paths
+		total.Returns += r.Returns
+		total.Panics += r.Panics
+		// vacuity: keep the precondition check of each split and all return paths
+		if len(r.Vacuity) > 1 {
+			total.Vacuity = append(total.Vacuity, r.Vacuity[1:]...)
+		}
+	}
+	return total
+}
+
+func (p *Program) verifyUnitOnce(u *Unit, splitVal *big.Int, sitePrefix string) *UnitResult {
 	x := &Exec{prog: p, unit: u, maxPaths: 4000, inlined: map[string]bool{}, assumed: map[string]bool{}, unknown: map[string]bool{}, inputs: map[string]*Term{}}
 	res := &UnitResult{Unit: u}
 	defer func() {
@@ -62,6 +88,14 @@ func (p *Program) verifyUnit(u *Unit) *UnitResult {
 		}
 		st.assume(t)
 	}
+	if splitVal != nil {
+		t, err := x.evalTerm(env, c.Split)
+		if err != nil {
+			x.errorf("%s: split: %v", u.Name, err)
+		} else {
+			st.assume(Eq(t, BigLit(splitVal)))
+		}
+	}
 	// vacuity: precondition satisfiable
 	res.Vacuity = append(res.Vacuity, &Obligation{Unit: u.Name, Kind: "vacuity", Label: "pre", Assumes: append([]*Term(nil), st.pc...), ExpectSat: true, Src: "precondition is satisfiable"})
 	x.entryPC = len(st.pc)
@@ -95,7 +129,7 @@ func (p *Program) verifyUnit(u *Unit) *UnitResult {
 		}
 		x.bindResults(renv, fn, c, o.rets)
 		x.applyLemmas(nil, o.st, renv, "return")
-		group := fmt.Sprintf("ret%d", retIdx)
+		group := fmt.Sprintf("%sret%d", sitePrefix, retIdx)
 		for _, a := range c.Asserts {
 			if a.Label == "return" {
 				t, err := x.evalBool(renv, a.Expr)
